@@ -163,6 +163,9 @@ def cases():
         ("null-primitive-assign", "int z = 1; z = null;", "Base z = new Base(); z = null;"),
         ("null-primitive-argument", "takesInt(null);", "takesBase(null);"),
         ("null-array-init", "int[] za = null;", "int[] za = {1};"),
+        ("null-index-read", "int[] za = {1, 2}; echo(za[null]);", "int[] za = {1, 2}; echo(za[0]);"),
+        ("null-index-write", "int[] za = {1, 2}; za[null] = 3;", "int[] za = {1, 2}; za[0] = 3;"),
+        ("null-indexed", "echo(null[0]);", "int[] za = {1}; echo(za[0]);"),
         ("null-array-argument", "echo(takesArr(null));", "int[] za = {1}; echo(takesArr(za));"),
         ("null-array-argument-method", "Vm vm = new Vm(); echo(vm.arr(null));", "Vm vm = new Vm(); int[] za = {1}; echo(vm.arr(za));"),
         ("null-array-assign", "int[] za = {1}; za = null;", "int[] za = {1}; za = {2};"),
